@@ -16,8 +16,6 @@ import (
 
 	"github.com/AdguardTeam/AdGuardDNS/internal/dnsserver/zzverif/vrt"
 	"github.com/AdguardTeam/AdGuardDNS/internal/dnsserver/zzverif/xsched"
-	"github.com/AdguardTeam/AdGuardDNS/internal/dnsserver/zzverif/xsync"
-	"github.com/AdguardTeam/golibs/syncutil"
 	"github.com/miekg/dns"
 )
 
@@ -95,8 +93,15 @@ func c06tQuery(i int) *dns.Msg {
 	return m
 }
 
-func c06tSetup(n int, s *xsched.Sched) *c06tEnv {
-	srv := NewServerDNS(ConfigDNS{ConfigBase: ConfigBase{Name: "verif", Addr: "127.0.0.1:0", Network: NetworkTCP, Handler: c06tHandler{}}})
+// c06tSetup runs the REAL connection loop (serveTCPConn) over n pipelined
+// queries; pipe > 0 enables the pipeline limit with that many messages in
+// flight (the limit's semaphore is a modelled one, see tools/instr -sema).
+func c06tSetup(n, pipe int, s *xsched.Sched) *c06tEnv {
+	conf := ConfigDNS{ConfigBase: ConfigBase{Name: "verif", Addr: "127.0.0.1:0", Network: NetworkTCP, Handler: c06tHandler{}}}
+	if pipe > 0 {
+		conf.MaxPipelineEnabled, conf.MaxPipelineCount = true, uint(pipe)
+	}
+	srv := NewServerDNS(conf)
 	srv.started = true
 	srv.workerPool.Release()
 	env := &c06tEnv{conn: &c06tConn{}, n: n}
@@ -105,15 +110,9 @@ func c06tSetup(n int, s *xsched.Sched) *c06tEnv {
 		env.conn.in = binary.BigEndian.AppendUint16(env.conn.in, uint16(len(b)))
 		env.conn.in = append(env.conn.in, b...)
 	}
-	wg := &xsync.WaitGroup{}
-	writeMu := &xsync.Mutex{}
 	s.Go("conn-loop", func() {
-		for i := 0; i < n; i++ {
-			if err := srv.acceptTCPMsg(env.conn, wg, writeMu, time.Second, syncutil.EmptySemaphore{}); err != nil {
-				env.errs = append(env.errs, err)
-			}
-		}
-		wg.Wait()
+		srv.wg.Add(1)
+		srv.serveTCPConn(context.Background(), env.conn)
 	})
 
 	return env
@@ -167,6 +166,7 @@ func c06tCheck(env *c06tEnv, x *xsched.Exec) []vrt.Finding {
 
 type c06tCase struct {
 	N       int   `json:"messages"`
+	Pipe    int   `json:"max_pipeline_count,omitempty"`
 	Choices []int `json:"choices"`
 	// TwoConns selects the scenario of two connections to one server.
 	TwoConns bool `json:"two_connections,omitempty"`
@@ -205,11 +205,8 @@ func c06t2Setup(s *xsched.Sched) *c06t2Env {
 		c.in = append(c.in, b...)
 		env.conns[i] = c
 		s.Go(fmt.Sprintf("conn-loop-%d", i), func() {
-			wg := &xsync.WaitGroup{}
-			if err := srv.acceptTCPMsg(c, wg, &xsync.Mutex{}, time.Second, syncutil.EmptySemaphore{}); err != nil {
-				env.errs = append(env.errs, fmt.Errorf("connection %d: %w", i, err))
-			}
-			wg.Wait()
+			srv.wg.Add(1)
+			srv.serveTCPConn(context.Background(), c)
 		})
 	}
 
@@ -254,7 +251,7 @@ func TestVerifC06TCPRace(t *testing.T) {
 	}
 	if r.ReplayCase("tcp-race", &rc) {
 		var env *c06tEnv
-		x := xsched.Replay(rc.Choices, func(s *xsched.Sched) { env = c06tSetup(rc.N, s) })
+		x := xsched.Replay(rc.Choices, func(s *xsched.Sched) { env = c06tSetup(rc.N, rc.Pipe, s) })
 		r.Eval()
 		r.Report("tcp-race", rc, c06tCheck(env, x))
 	}
@@ -262,10 +259,12 @@ func TestVerifC06TCPRace(t *testing.T) {
 		shard, nshards := r.NShards()
 		execs := 0
 		r.Bound("tcp_race_preemptions", vrt.Pick(r, "2 messages: 3, 3 messages: 2", "2 messages: unbounded, 3 messages: 3"))
-		for ni, n := range []int{2, 3} {
+		r.Bound("tcp_race_scenarios", "2 and 3 pipelined messages x pipeline limit off / 1 / 2 (3 messages: off / 1)")
+		for ni, sc := range [][2]int{{2, 0}, {3, 0}, {2, 1}, {3, 1}, {2, 2}} {
 			if ni%nshards != shard {
 				continue
 			}
+			n, pipe := sc[0], sc[1]
 			pre := vrt.Pick(r, 3, -1)
 			if n == 3 {
 				pre = vrt.Pick(r, 2, 3)
@@ -277,34 +276,34 @@ func TestVerifC06TCPRace(t *testing.T) {
 					if execs++; execs%2000 == 0 {
 						runtime.GC()
 					}
-					env = c06tSetup(n, s)
+					env = c06tSetup(n, pipe, s)
 				},
 				func(x *xsched.Exec) bool {
 					r.Eval()
 					r.Trans(len(x.Sched.Trace))
 					fs := c06tCheck(env, x)
-					r.Class(fmt.Sprintf("tcp-race %d messages", n))
+					r.Class(fmt.Sprintf("tcp-race %d messages, pipeline limit %d", n, pipe))
 					order := ""
 					for _, w := range env.conn.writes {
 						if len(w) >= 4 {
 							order += fmt.Sprintf("%x ", w[2:4])
 						}
 					}
-					r.State(fmt.Sprintf("tcp-race %d %s", n, order))
+					r.State(fmt.Sprintf("tcp-race %d %d %s", n, pipe, order))
 					if len(fs) > 0 {
-						r.Report("tcp-race", c06tCase{N: n, Choices: x.Choices}, fs)
+						r.Report("tcp-race", c06tCase{N: n, Pipe: pipe, Choices: x.Choices}, fs)
 						found++
 					}
 
 					return found < 1
 				})
 			if st.Stopped {
-				r.Note("tcp race n=%d stopped by deadline after %d executions", n, st.Executions)
+				r.Note("tcp race n=%d pipe=%d stopped by deadline after %d executions", n, pipe, st.Executions)
 			}
 		}
 	}
 	if r.ShouldRun() {
-		if shard, nshards := r.NShards(); 2%nshards == shard {
+		if shard, nshards := r.NShards(); 5%nshards == shard {
 			r.Bound("tcp_two_conns_preemptions", vrt.Pick(r, "2", "3"))
 			var env *c06t2Env
 			found, execs := 0, 0
